@@ -1,9 +1,10 @@
 (* C15 - the printed tree is the canonical compressed radix tree.  Statements only.
-   Proved for every router the model reaches by any history: the ordering / distinct-first-byte /
-   no-empty-node / marked-leaf clauses (wf + tidy).  Not proved: maximal compression of literal
-   chains and "routes of the tree = live routes"; those, and the printer itself (Display text =
-   Model.display of the real dump), are decided by canonical_b, routes_same and the Display channel
-   on every real dump. *)
+   Proved for every router the model reaches by any history: the canonical shape canonical_b of Spec/Inv.v
+   (root without data holding at most one child, a literal starting with '/'; below it no empty node, every
+   leaf marked, no compressible literal node, literal siblings with different first bytes, every sibling
+   list strictly sorted), and "the routes of the tree are exactly the expansions of the live templates"
+   (Properties/C05.v, C08.v: Abs).  Not proved: the printer itself (Display text = Model.display of the tree,
+   kinds printed in the documented order); that is decided by the Display channel on every real dump. *)
 From WF Require Import Base.Bytes Spec.Route Spec.Walk Model.Tree Model.Router Spec.Inv.
 From WF Require Import Proofs.InvP Proofs.OptimizeP Proofs.ReachP.
 
@@ -32,3 +33,20 @@ Proof.
   intros k kc He Hkc. apply (wn_end n W k kc He Hkc).
 Qed.
 Print Assumptions C15_shape_of_a_wf_tidy_node.
+
+(* ---- the canonical shape, for every history ---- *)
+From WF Require Import Proofs.CompP Proofs.CanonP.
+Print canonical_b.
+Print canon_node.
+Print compressible_b.
+
+Theorem C15_reachable_tree_is_canonical :
+  forall builtins (ops : list op), canonical_b (r_root (run builtins ops)) = true.
+Proof. exact reachable_canonical. Qed.
+Print Assumptions C15_reachable_tree_is_canonical.
+
+(* in particular no literal node below the root is a data-less node whose only child is one literal node *)
+Theorem C15_reachable_tree_is_compressed :
+  forall builtins (ops : list op), comp (r_root (run builtins ops)) = true.
+Proof. intros b ops. apply (reachable_cinv b ops). Qed.
+Print Assumptions C15_reachable_tree_is_compressed.
